@@ -165,8 +165,97 @@ fn invalid_bases(units: &[U], rng: &mut Rng) -> Vec<Base> {
     out
 }
 
+/// Two alternatives that read the same option with different types and then enter a command of
+/// the same name (`[--target=N cmd | --target=NAME cmd]`): when the first fails to convert the
+/// value and the second one shows the command's help, help wins
+fn twin_alternatives_scenario(case: &mut Case, rng: &mut Rng) {
+    let name = format!("target{}", rng.below(100));
+    let cmd_name = format!("restart{}", rng.below(100));
+    let arg = |id: Id, ty: Ty| {
+        Spec::Item(Item {
+            id,
+            names: Names::long(&name),
+            help: None,
+            leaf: Leaf::Arg {
+                ty,
+                metavar: format!("M{}", id),
+                adjacent: false,
+            },
+        })
+    };
+    let cmd = |id: Id, with_version: bool| {
+        let mut opts = OptSpec::plain(Spec::Seq(vec![Spec::Item(Item {
+            id: id + 1,
+            names: Names::short('f'),
+            help: None,
+            leaf: Leaf::Switch,
+        })]));
+        opts.header = Some(header_of(id));
+        if with_version {
+            opts.version = Some("7.7.7".to_string());
+        }
+        Spec::Cmd(Box::new(CmdSpec {
+            id,
+            names: vec![cmd_name.clone()],
+            shorts: vec![],
+            help: None,
+            adjacent: false,
+            opts,
+        }))
+    };
+    let with_version = rng.chance(1, 2);
+    let mut spec = OptSpec::plain(Spec::Seq(vec![Spec::Alt(vec![
+        Spec::Seq(vec![arg(1, Ty::U32), cmd(10, with_version)]),
+        Spec::Seq(vec![arg(2, Ty::Str), cmd(20, with_version)]),
+    ])]));
+    spec.header = Some(header_of(0));
+    let b = Bench::new(case, spec);
+    let ask = if with_version && rng.chance(1, 2) {
+        "--version"
+    } else {
+        "--help"
+    };
+    let mut argv: Vec<Vec<u8>> = vec![
+        format!("--{}", name).into_bytes(),
+        b"web-1".to_vec(),
+        cmd_name.clone().into_bytes(),
+    ];
+    if rng.chance(1, 2) {
+        argv.push(b"-f".to_vec());
+    }
+    argv.push(ask.as_bytes().to_vec());
+    let (out, _) = b.run(case, &argv, "help:twin-alternatives");
+    let ok = match &out {
+        Outcome::Stdout { text, .. } => {
+            if ask == "--version" {
+                text.contains("Version: 7.7.7")
+            } else {
+                text.contains(&header_of(10)) || text.contains(&header_of(20))
+            }
+        }
+        _ => false,
+    };
+    if !ok && !matches!(out, Outcome::Panic(_) | Outcome::FuelExhausted) {
+        case.rep.violation(
+            &format!("help-or-version-lost:twin-alternatives:{}", out.class()),
+            "help-wins",
+            case.index,
+            b.detail(
+                &argv,
+                "help:twin-alternatives",
+                "Stdout describing the command that was entered",
+                &out,
+            ),
+        );
+    }
+}
+
 pub fn run_case(case: &mut Case) {
     let mut rng = case.rng(0);
+    if rng.chance(1, 16) {
+        twin_alternatives_scenario(case, &mut rng);
+        return;
+    }
     let mut spec = gen_options(&mut rng, opts());
     set_headers(&mut spec, 0);
     let b = Bench::new(case, spec);
